@@ -712,3 +712,56 @@ func ruleRouting(c *Ctx, rule string) {
 		c.check(okLk, rule, w.Short(side.lookup)+": returns the entry for the given id", w.Pos(side.lookup.Pos()), "returns table[id]", "the lookup function does not return the table entry indexed by exactly its id parameter")
 	}
 }
+
+// ruleDecodeResets (C01.10): received bytes are decoded into a RESET message.
+func ruleDecodeResets(c *Ctx, rule string) {
+	c.rule(rule, "each RecvMsg decodes the reassembled bytes with proto.Unmarshal (which resets the destination) or with UnmarshalOptions whose Merge field is never set: an application that reuses one message value across receives must not see fields of an earlier message")
+	w := c.W
+	// any store of a non-false value to UnmarshalOptions.Merge anywhere in the package (incl. package initialisers)
+	var mergeStore ssa.Instruction
+	for _, fn := range w.Funcs {
+		allInstrs(fn, func(in ssa.Instruction) {
+			st, ok := in.(*ssa.Store)
+			if !ok {
+				return
+			}
+			fa, ok := st.Addr.(*ssa.FieldAddr)
+			if !ok {
+				return
+			}
+			n := namedOf(fa.X.Type())
+			if n == nil || n.Obj().Name() != "UnmarshalOptions" || fieldName(fa.X.Type(), fa.Field) != "Merge" {
+				return
+			}
+			if k, isK := st.Val.(*ssa.Const); isK && k.Value != nil && k.Value.String() == "false" {
+				return
+			}
+			mergeStore = st
+		})
+	}
+	n := 0
+	for _, fn := range w.Funcs {
+		if isGenericTemplate(fn) {
+			continue
+		}
+		allInstrs(fn, func(in ssa.Instruction) {
+			ci, ok := in.(ssa.CallInstruction)
+			if !ok {
+				return
+			}
+			name := calleeName(ci)
+			switch {
+			case name == "google.golang.org/protobuf/proto.Unmarshal":
+				n++
+				c.ok(rule, w.Short(fn)+": decode resets the destination", w.At(in), "proto.Unmarshal")
+			case strings.HasPrefix(name, "(google.golang.org/protobuf/proto.UnmarshalOptions)."):
+				n++
+				c.check(mergeStore == nil, rule, w.Short(fn)+": decode resets the destination", w.At(in), "UnmarshalOptions with Merge never set", "received bytes are decoded with UnmarshalOptions and the package sets Merge ("+posOfInstr(w, mergeStore)+"): the destination is not reset, so a caller that reuses a message value gets fields of the previous message merged into the next one (repeated fields appended, unset scalars retained)")
+			case strings.HasSuffix(name, "proto.Merge"):
+				n++
+				c.fail(rule, w.Short(fn)+": decode resets the destination", w.At(in), "proto.Merge into the caller's message")
+			}
+		})
+	}
+	c.floor(rule, n, 2, "decode calls (client and server RecvMsg)")
+}
